@@ -38,12 +38,12 @@ class C03(core.Prop):
              're matcher (symx)', 'pysmiles/networkx native']
     ASSUMPTIONS = ['unit drive: the resolver state (coarse graph with per-node fragment graphs carrying descriptor lists, fine graph) is '
                    'constructed directly, as resolve_disconnected_molecule leaves it; every descriptor is a fully symbolic string '
-                   'kind (4) + label (fixed length 0-2, alnum) + order digit (1-3); base edge order symbolic 0-4',
+                   'kind (4) + label (fixed length 0-4, alnum) + order digit (1-3); base edge order symbolic 0-4',
                    'compatibility formula of DESIGN.md section 3.1; under the label-insensitive convention either descriptor\'s order is accepted',
                    '"exactly that many" is checked as maximality: when fewer bonds than the edge order were made, no compatible pair is left',
                    'pipeline shapes and the 1x1 unit shapes first drive the same input under the *other* matching convention (history within one process), then the one judged']
     OUTSIDE = ['more than 3 coarse nodes / 2 atoms per node / 2 descriptors per atom in the unit drive',
-               'descriptor order digit 0 and labels longer than 2']
+               'descriptor order digit 0 and labels longer than 4']
     BOUNDS = {
         'quick': 'unit drive: 2 coarse nodes x (1x2, 2x1, 2x2 atoms x descriptors), label length 0-1, both conventions, aromatic flags on/off; '
                  'pipeline: C01 quick cases (first rendering) with labels NOT constrained distinct, both conventions',
@@ -63,10 +63,10 @@ class C03(core.Prop):
     def shapes(self, tier):
         out = []
         if tier == 'quick':
-            cfgs = [(2, 'chain', 1, 2, 1), (2, 'chain', 2, 1, 1), (2, 'chain', 1, 1, 0), (2, 'chain', 2, 2, 0)]
+            cfgs = [(2, 'chain', 1, 2, 1), (2, 'chain', 2, 1, 1), (2, 'chain', 1, 1, 0), (2, 'chain', 2, 2, 0), (2, 'chain', 1, 1, 3)]
         else:
             cfgs = [(2, 'chain', 1, 2, 1), (2, 'chain', 2, 1, 1), (2, 'chain', 1, 1, 0), (2, 'chain', 2, 2, 0), (2, 'chain', 1, 2, 2),
-                    (2, 'chain', 2, 2, 1), (3, 'chain', 1, 2, 1), (3, 'tri', 1, 2, 1), (3, 'chain', 2, 1, 1), (2, 'chain', 1, 1, 2)]
+                    (2, 'chain', 2, 2, 1), (3, 'chain', 1, 2, 1), (3, 'tri', 1, 2, 1), (3, 'chain', 2, 1, 1), (2, 'chain', 1, 1, 2), (2, 'chain', 1, 1, 4)]
         for (nc, topo, na, nd, ll) in cfgs:
             for legacy in (True, False):
                 for arom in ((False,) if (na * nd > 2 or nc > 2) else (False, True)):
